@@ -12,7 +12,7 @@ Obs == [lo |-> lo', hi |-> hi', val |-> val', last |-> last']
 Rec(a) == hist' = Append(hist, a @@ [exp |-> Obs])
 
 GInit == /\ LInit
-         /\ hist = <<[act |-> "init", kind |-> kind, dlo |-> Lo, dhi |-> Hi, forbidden |-> forb,
+         /\ hist = <<[act |-> "init", kind |-> kind, dlo |-> Lo, dhi |-> Hi, forbidden |-> forb, hexc |-> hexc,
                       exp |-> [lo |-> lo, hi |-> hi, val |-> val, last |-> last]]>>
 GNext == \/ \E v \in PV : WriteP(v) /\ Rec([act |-> "p", v |-> v])
          \/ \E v \in MinV : SetMin(v) /\ Rec([act |-> "min", v |-> v])
